@@ -88,14 +88,14 @@ let init () =
     (two (fun a b -> let (x, y) = (arg_uc a, arg_uc b) in both (ExtraOrd.uord x y) (ExtraHist.une x y) ord_line))
     (two (fun a b -> spec_ord (v (arg_uc a)) (v (arg_uc b))));
   reg_ms "ord.i"
-    (two (fun a b -> let (x, y) = (arg_ic a, arg_ic b) in both (ExtraOrd.iord x y) (ExtraHist.ine x y) ord_line))
+    (two (fun a b -> let (x, y) = (arg_ic a, arg_ic b) in both (ExtraOrd.iord Extracted.signs x y) (ExtraHist.ine x y) ord_line))
     (two (fun a b -> spec_ord (Base.ival (arg_ic a)) (Base.ival (arg_ic b))));
   let sort_spec enc vals = line (Stdlib.List.map enc (Stdlib.List.sort Z.compare vals)) in
   reg_ms "sort.u"
-    (fun args -> out (fun l -> line (Stdlib.List.map Ops_hist.res_obj l)) (Hist.osort (Stdlib.List.map (fun a -> Hist.OU (arg_uc a)) args)))
+    (fun args -> out (fun l -> line (Stdlib.List.map Ops_hist.res_obj l)) (Hist.osort Extracted.signs (Stdlib.List.map (fun a -> Hist.OU (arg_uc a)) args)))
     (fun args -> sort_spec (fun x -> res_u (Base.enc x)) (Stdlib.List.map (fun a -> v (arg_uc a)) args));
   reg_ms "sort.i"
-    (fun args -> out (fun l -> line (Stdlib.List.map Ops_hist.res_obj l)) (Hist.osort (Stdlib.List.map (fun a -> Hist.OI (arg_ic a)) args)))
+    (fun args -> out (fun l -> line (Stdlib.List.map Ops_hist.res_obj l)) (Hist.osort Extracted.signs (Stdlib.List.map (fun a -> Hist.OI (arg_ic a)) args)))
     (fun args -> sort_spec (fun x -> res_i (Base.ienc x)) (Stdlib.List.map (fun a -> Base.ival (arg_ic a)) args));
   (* the hashed word stream as a function of the integer (HistProofs.hash_stream_spec) *)
   let zl l = Z.of_int (Stdlib.List.length l) in
